@@ -42,8 +42,8 @@ TARGETS = [
 ]
 
 # burst driver: (scenarios, rounds per scenario); 4-8 goroutines per round
-BURST_QUICK = (16, 25)
-BURST_THOROUGH = (80, 25)
+BURST_QUICK = (8, 16)
+BURST_THOROUGH = (48, 32)
 
 CMDS = {"Start", "PrepOk", "PrepFail", "PrepLost", "Done", "ExecReply", "Evict", "Forget", "Cancel"}
 RES = {"ok": "ok", "err_prepare": "prepare", "err_arity": "arity", "err_ctx": "ctx", "err_unprepared": "unprepared", "none": "none"}
